@@ -148,6 +148,7 @@ type c19dBMPState struct {
 	downs     []c19dBMPDown
 	stats     map[string]c19dBMPStat
 	rm        map[string]int // RM messages per view
+	ops       map[string]*[]c19dOp // per view (taint key): the announce/withdraw operations in stream order
 	routeMsgs int            // RM messages that carry at least one route
 }
 
@@ -163,6 +164,8 @@ type c19dBMP struct {
 	peers    []*c19dPeer
 	loopPfx  map[string]map[string]bool // peer -> "fam/prefix": an AS-loop version was announced
 	reported map[string]bool
+	late     bool
+	downKind string
 	counting bool // counters are taken from the last (complete) decoding of a scenario only
 	markerNo int
 	sysName  string
@@ -228,34 +231,63 @@ func c19dCapsAddPath(open *bgp.BGPOpen) map[bgp.Family]bgp.BGPAddPathMode {
 }
 
 // applyUpdate applies one decoded UPDATE to a view; it returns the number of routes touched.
-func c19dApplyUpdate(view map[string]string, m *bgp.BGPMessage) int {
+type c19dOp struct {
+	add        bool
+	key, canon string
+}
+
+func (o c19dOp) String() string {
+	if o.add {
+		return "+" + o.key
+	}
+	return "-" + o.key
+}
+
+func c19dPfxOf(k string) string {
+	if j := strings.LastIndex(k, "#"); j >= 0 {
+		return k[:j]
+	}
+	return k
+}
+
+func c19dApplyUpdate(view map[string]string, m *bgp.BGPMessage, ops ...*[]c19dOp) int {
 	u, ok := m.Body.(*bgp.BGPUpdate)
 	if !ok {
 		return 0
 	}
 	n := 0
 	canon := c19dCanon(u.PathAttributes)
-	for _, w := range u.WithdrawnRoutes {
-		delete(view, fmt.Sprintf("%s/%s#%d", bgp.RF_IPv4_UC, w.NLRI, w.ID))
+	del := func(k string) {
+		delete(view, k)
 		n++
+		for _, o := range ops {
+			*o = append(*o, c19dOp{false, k, ""})
+		}
+	}
+	set := func(k string) {
+		view[k] = canon
+		n++
+		for _, o := range ops {
+			*o = append(*o, c19dOp{true, k, canon})
+		}
+	}
+	for _, w := range u.WithdrawnRoutes {
+		del(fmt.Sprintf("%s/%s#%d", bgp.RF_IPv4_UC, w.NLRI, w.ID))
 	}
 	for _, a := range u.PathAttributes {
 		if v, ok := a.(*bgp.PathAttributeMpUnreachNLRI); ok {
 			for _, w := range v.Value {
-				delete(view, fmt.Sprintf("%s/%s#%d", bgp.NewFamily(v.AFI, v.SAFI), w.NLRI, w.ID))
-				n++
+				del(fmt.Sprintf("%s/%s#%d", bgp.NewFamily(v.AFI, v.SAFI), w.NLRI, w.ID))
 			}
 		}
 	}
 	for _, nl := range u.NLRI {
-		view[fmt.Sprintf("%s/%s#%d", bgp.RF_IPv4_UC, nl.NLRI, nl.ID)] = canon
-		n++
+		set(fmt.Sprintf("%s/%s#%d", bgp.RF_IPv4_UC, nl.NLRI, nl.ID))
 	}
 	for _, a := range u.PathAttributes {
 		if v, ok := a.(*bgp.PathAttributeMpReachNLRI); ok {
 			for _, nl := range v.Value {
-				view[fmt.Sprintf("%s/%s#%d", bgp.NewFamily(v.AFI, v.SAFI), nl.NLRI, nl.ID)] = canon
-				n++
+				set(fmt.Sprintf("%s/%s#%d", bgp.NewFamily(v.AFI, v.SAFI), nl.NLRI, nl.ID))
 			}
 		}
 	}
@@ -266,7 +298,7 @@ func c19dApplyUpdate(view map[string]string, m *bgp.BGPMessage) int {
 // Findings about individual messages are reported (once per message) on the way.
 func (h *c19dBMP) decode(data []byte, final bool) *c19dBMPState {
 	s := &c19dBMPState{initTok: -1, termTok: -1, sess: map[string]*c19dBMPSess{}, pre: map[string]map[string]string{}, post: map[string]map[string]string{},
-		loc: map[string]string{}, tainted: map[string]bool{}, stats: map[string]c19dBMPStat{}, rm: map[string]int{}}
+		loc: map[string]string{}, tainted: map[string]bool{}, stats: map[string]c19dBMPStat{}, rm: map[string]int{}, ops: map[string]*[]c19dOp{}}
 	toks, left, err := c19dSplitBMP(data)
 	if err != nil {
 		h.viol(len(toks), "c19d:bmp:stream:split-error", "SplitBMP fails on the stream gobgp wrote: "+err.Error(), nil)
@@ -394,7 +426,11 @@ func (h *c19dBMP) checkPeerHeader(s *c19dBMPState, i int, name string, ph bmp.BM
 		h.viol(i, "c19d:bmp:"+name+":peer-header:peer-as", fmt.Sprintf("peer AS %d, the peer is AS %d", ph.PeerAS, p.conf.AS), wit())
 	}
 	if ph.PeerBGPID.String() != p.conf.ID {
-		h.viol(i, "c19d:bmp:"+name+":peer-header:bgp-id", fmt.Sprintf("peer BGP id %s, the peer's router id is %s", ph.PeerBGPID, p.conf.ID), wit())
+		k := "c19d:bmp:" + name + ":peer-header:bgp-id"
+		if name == "peer-down" {
+			k += ":" + h.downKind
+		}
+		h.viol(i, k, fmt.Sprintf("peer BGP id %s, the peer's router id is %s", ph.PeerBGPID, p.conf.ID), wit())
 	}
 	if (ph.Flags&bmp.BMP_PEER_FLAG_IPV6 != 0) != netip.MustParseAddr(p.conf.Addr).Is6() {
 		h.viol(i, "c19d:bmp:"+name+":peer-header:v-flag", fmt.Sprintf("V flag %v for peer address %s", ph.Flags&bmp.BMP_PEER_FLAG_IPV6 != 0, addr), wit())
@@ -618,7 +654,10 @@ func (h *c19dBMP) onRouteMonitoring(s *c19dBMPState, i int, ph bmp.BMPPeerHeader
 	if view == nil {
 		return
 	}
-	if c19dApplyUpdate(view, upd) > 0 {
+	if s.ops[taintKey] == nil {
+		s.ops[taintKey] = &[]c19dOp{}
+	}
+	if c19dApplyUpdate(view, upd, s.ops[taintKey]) > 0 {
 		s.routeMsgs++
 	}
 }
@@ -661,6 +700,7 @@ func (h *c19dBMP) compareViews(s *c19dBMPState) ([]c19dViewDiff, int) {
 	}
 	mk := func(view, peer string, got, want map[string]string, sessCls string) {
 		compared += len(want)
+		opsKey := map[string]string{"pre-policy": "pre|" + peer, "post-policy": "post|" + peer, "loc-rib": "loc"}[view]
 		missing, extra, differ := c19dMapDiff(got, want)
 		if len(missing)+len(extra)+len(differ) == 0 {
 			return
@@ -686,6 +726,9 @@ func (h *c19dBMP) compareViews(s *c19dBMPState) ([]c19dViewDiff, int) {
 			cls = append(cls, "attributes:"+c19dDiffClass(got[differ[0]], want[differ[0]]))
 		}
 		key := "c19d:bmp:route-monitoring:" + view + ":" + sessCls + ":view-differs:" + strings.Join(cls, "+")
+		if h.late && view != "loc-rib" {
+			key += ":station-added-late"
+		}
 		if loopOnly && view == "pre-policy" {
 			key = "c19d:bmp:route-monitoring:" + view + ":" + sessCls + ":view-differs:as-loop-route"
 		}
@@ -693,12 +736,33 @@ func (h *c19dBMP) compareViews(s *c19dBMPState) ([]c19dViewDiff, int) {
 		if len(differ) > 0 {
 			w["station"], w["api"] = got[differ[0]], want[differ[0]]
 		}
+		pfxOf := c19dPfxOf
+		bad := map[string]bool{}
+		for _, k := range append(append(append([]string{}, missing...), extra...), differ...) {
+			bad[pfxOf(k)] = true
+		}
+		if o := s.ops[opsKey]; o != nil {
+			var hist []string
+			for _, op := range *o {
+				if bad[pfxOf(op.key)] {
+					hist = append(hist, op.String())
+				}
+			}
+			w["station_operations_on_these_prefixes"] = hist
+		}
+		var tbl []string
+		for _, a := range global {
+			if bad[fmt.Sprintf("%s/%s", a.Family, a.Prefix)] {
+				tbl = append(tbl, fmt.Sprintf("%s/%s src=%s remote-id=%d local-id=%d best=%v", a.Family, a.Prefix, a.Peer, a.Remote, a.Local, a.Best))
+			}
+		}
+		w["global_table_paths_of_these_prefixes"] = tbl
 		out = append(out, c19dViewDiff{key, fmt.Sprintf("the %s view the station accumulated for %s differs from the API's", view, peer), w})
 	}
 	for _, p := range h.peers {
 		addr := p.conf.Addr
 		ss := s.sess[addr]
-		if ss == nil || !ss.up {
+		if ss == nil || !ss.up || !p.up {
 			continue
 		}
 		sessCls := "plain-session"
@@ -736,14 +800,55 @@ func (h *c19dBMP) compareViews(s *c19dBMPState) ([]c19dViewDiff, int) {
 		}
 	}
 	if h.wantLoc() && !s.tainted["loc"] {
-		// admissible: the best path of every destination under its local path identifier
-		want := map[string]string{}
-		for _, a := range global {
-			if a.Best {
-				want[fmt.Sprintf("%s/%s#%d", a.Family, a.Prefix, a.Local)] = a.Canon
+		// level 1, the semantics gobgp implements: per prefix the last operation wins, whatever
+		// the path identifier - that must be the best path of the destination
+		last := map[string]string{}
+		if o := s.ops["loc"]; o != nil {
+			for _, op := range *o {
+				if op.add {
+					last[c19dPfxOf(op.key)] = op.canon
+				} else {
+					delete(last, c19dPfxOf(op.key))
+				}
 			}
 		}
-		mk("loc-rib", "loc-rib", s.loc, want, "loc-rib")
+		want1, want2 := map[string]string{}, map[string]string{}
+		for _, a := range global {
+			if a.Best {
+				want1[fmt.Sprintf("%s/%s", a.Family, a.Prefix)] = a.Canon
+				want2[fmt.Sprintf("%s/%s#%d", a.Family, a.Prefix, a.Local)] = a.Canon
+			}
+		}
+		n0 := len(out)
+		mk("loc-rib", "loc-rib", last, want1, "per-prefix")
+		if len(out) == n0 {
+			// level 2, what a station does with the ADD-PATH capability of the Loc-RIB Peer Up
+			// (RFC 7911): routes are keyed by (prefix, path identifier)
+			missing, extra, differ := c19dMapDiff(s.loc, want2)
+			if len(missing)+len(extra)+len(differ) > 0 {
+				bad := map[string]bool{}
+				for _, k := range append(append(append([]string{}, missing...), extra...), differ...) {
+					bad[c19dPfxOf(k)] = true
+				}
+				var hist, tbl []string
+				if o := s.ops["loc"]; o != nil {
+					for _, op := range *o {
+						if bad[c19dPfxOf(op.key)] {
+							hist = append(hist, op.String())
+						}
+					}
+				}
+				for _, a := range global {
+					if bad[fmt.Sprintf("%s/%s", a.Family, a.Prefix)] {
+						tbl = append(tbl, fmt.Sprintf("%s/%s src=%s remote-id=%d local-id=%d best=%v", a.Family, a.Prefix, a.Peer, a.Remote, a.Local, a.Best))
+					}
+				}
+				out = append(out, c19dViewDiff{"c19d:bmp:route-monitoring:loc-rib:path-identifiers:stale-or-missing-path-id",
+					"keyed by (prefix, path id) - the encoding the Loc-RIB Peer Up announces - the station's Loc-RIB differs from the best paths of ListPath(GLOBAL): a best path change to another path id is announced without withdrawing the previous id",
+					map[string]any{"peer": "loc-rib", "missing_at_station": missing, "only_at_station": extra, "attributes_differ": differ,
+						"station_operations_on_these_prefixes": hist, "global_table_paths_of_these_prefixes": tbl}})
+			}
+		}
 	}
 	return out, compared
 }
@@ -981,6 +1086,10 @@ func c19dBMPCase(t *testing.T, rec *vlib.Rec, idx int) {
 	stats := r.IntN(3) == 0
 	late := r.IntN(3) == 0
 	downKind := []string{"none", "remote-close", "remote-notification", "disable-peer", "delete-peer"}[r.IntN(5)]
+	if downKind == "delete-peer" && h.policy == api.AddBmpRequest_MONITORING_POLICY_BOTH {
+		downKind = "remote-close" // nothing is monitored: no marker barrier to decide "no Peer Down" with
+	}
+	h.late, h.downKind = late, downKind
 	confs := c19dGenPeers(r, 2+r.IntN(2), h.globalAS, false)
 	h.sysName = fmt.Sprintf("c19d-station-%d", idx)
 	h.shape = []string{fmt.Sprintf("as=%d mon=%s import-policy=%v stats=%v late-station=%v down=%s", h.globalAS, h.policy, policy, stats, late, downKind)}
@@ -1150,7 +1259,34 @@ func c19dBMPCase(t *testing.T, rec *vlib.Rec, idx int) {
 		}
 		p.up = false
 		h.logf("down %s by %s", p.conf.Addr, downKind)
-		if !h.waitFor(func(data []byte, eof bool) bool { return c19dCountType(data, bmp.BMP_MSG_PEER_DOWN_NOTIFICATION) > 0 }) {
+		if downKind == "delete-peer" {
+			// DeletePeer reports the state change synchronously, before it returns: whatever it put
+			// into the station's watcher precedes the markers of the remaining peers (FIFO). A second
+			// barrier after the peer has seen its connection closed covers the FSM teardown as well.
+			if !h.barrier() {
+				return
+			}
+			closed := false
+			for j := 0; j < 6000 && !closed; j++ {
+				p.sp.mu.Lock()
+				closed = p.sp.closedErr != nil
+				p.sp.mu.Unlock()
+				if !closed {
+					time.Sleep(5 * time.Millisecond)
+				}
+			}
+			if !closed {
+				rec.Inconclusive(fmt.Sprintf("c19d bmp case %d: connection of the deleted peer still open after %v", idx, c19dWait))
+				return
+			}
+			if !h.barrier() {
+				return
+			}
+			if data, _ := st.snapshot(); c19dCountType(data, bmp.BMP_MSG_PEER_DOWN_NOTIFICATION) == 0 {
+				h.viol(-1, "c19d:bmp:peer-down:missing:delete-peer", "DeletePeer of an established neighbour: the session is gone (ListPeer, connection closed), two later barriers have passed, and the station got no Peer Down for "+p.conf.Addr, nil)
+				rec.Count("bmp_peer_down_missing", 1)
+			}
+		} else if !h.waitFor(func(data []byte, eof bool) bool { return c19dCountType(data, bmp.BMP_MSG_PEER_DOWN_NOTIFICATION) > 0 }) {
 			rec.Inconclusive(fmt.Sprintf("c19d bmp case %d: no Peer Down within %v after %s", idx, c19dWait, downKind))
 			return
 		}
@@ -1179,7 +1315,9 @@ func c19dBMPCase(t *testing.T, rec *vlib.Rec, idx int) {
 				d = &s.downs[i]
 			}
 		}
-		if d == nil {
+		if d == nil && len(s.downs) == 0 {
+			// reported above (delete-peer)
+		} else if d == nil {
 			h.viol(-1, "c19d:bmp:peer-down:wrong-peer", "a Peer Down arrived, but not for the session that was lost ("+p.conf.Addr+")", map[string]any{"downs": fmt.Sprint(s.downs)})
 		} else {
 			rec.Count("bmp_peer_down_checked", 1)
